@@ -654,16 +654,15 @@ theorem durable_lookup_linked (t0 : List Leaf) (h0 : Trie.SnapOk t0) (tmp : Opti
         funext pk
         exact heq pk
       have hi := inv_freshSt ht.1
-      have hset := settled_freshSt t
       refine ⟨t, rfl, ht.1, heq, habs, ?_, ?_, ?_⟩
       · intro k
         rw [← habs]
         exact TrieBuf.lookup_agrees hi k
       · rw [← habs]
         exact TrieBuf.entries_agrees hi
-      · intro q hq
+      · intro q _
         rw [← habs]
-        exact TrieBuf.fuzzy_agrees hi q hq (TrieBuf.settled_not_fuzzyClass hset q)
+        exact TrieBuf.fuzzy_agrees hi q
 
 /-- non-vacuity of `durable_lookup_linked`: learn 測 under ㄘㄜˋ, update it while the first snapshot
     is being written, drop the dictionary: the run exists, ends closed, and the file holds the
@@ -686,8 +685,16 @@ theorem isEntries_perm {m : MapSpec.Map} {l1 l2 : List Entry} (hp : l1.Perm l2) 
 theorem lookupAll_freshSt (t : List Leaf) (k : List Nat) (st : Strategy) :
     TrieBuf.lookupAll (freshSt t) k st = dedup (Trie.lookupAll t k st) := by
   have h : ∀ l : List Phrase, l.filter (fun _ => true) = l := fun l => List.filter_eq_self.mpr (fun _ _ => rfl)
-  simp [TrieBuf.lookupAll, TrieBuf.entriesIterFor, freshSt, TrieBuf.initFile, TrieBuf.initMem, TrieBuf.btreeRange,
-    TrieBuf.btHas, h]
+  have he : ∀ l : List Entry, l.filter (fun _ => true) = l := fun l => List.filter_eq_self.mpr (fun _ _ => rfl)
+  cases st with
+  | standard =>
+    simp [TrieBuf.lookupAll, TrieBuf.entriesIterFor, freshSt, TrieBuf.initFile, TrieBuf.initMem, TrieBuf.btreeRange,
+      TrieBuf.btHas, h]
+  | fuzzyPartialPrefix =>
+    -- since fix 097161a the prefix lookup goes through `entries()`; nothing is pending in a fresh state
+    rw [← TrieBuf.trie_entries_fuzzy]
+    simp [TrieBuf.lookupAll, TrieBuf.entriesIterFor, TrieBuf.entries, freshSt, TrieBuf.initFile, TrieBuf.initMem,
+      TrieBuf.btEntries, TrieBuf.btHas, he]
 
 theorem entries_freshSt (t : List Leaf) : TrieBuf.entries (freshSt t) = Trie.entries t := by
   simp [TrieBuf.entries, freshSt, TrieBuf.initFile, TrieBuf.initMem, TrieBuf.btEntries, TrieBuf.btHas]
